@@ -29,6 +29,7 @@ func runC01(c *Ctx) {
 	c.ruleR01d("R01d cache-reuse-condition", false)
 	c.ruleCacheIdentity("R01d' cache-stores-what-it-returns")
 	c.ruleR01e("R01e result-built-from-current-path")
+	c.ruleR01f("R01f documented-length-rules")
 }
 
 func isUnionCall(call *ssa.Call) bool {
@@ -609,4 +610,112 @@ func (c *Ctx) ruleR01e(rule string) {
 			}
 		}
 	}
+}
+
+// ruleR01f: the length predicates of the sequence constructors are the documented ones. Each predicate is a pure
+// function of the length, the number of parsers l and (for Many) the allow-empty flag; it is folded over
+// len in 0..l+2 for l in 0..4 and compared with the documented rule (SeqOf: all parsers; SeqTry: at least the first;
+// SeqFirstOrAll: the first or all; Many: any length / at least one).
+func (c *Ctx) ruleR01f(rule string) {
+	c.R.Rule(rule, "lenCheck of SeqOf is len == l, of SeqTry 0 < len <= l, of SeqFirstOrAll len == 1 || len == l, of Many allowEmpty || len > 0 (folded over small l and len)", 4)
+	type spec struct {
+		ctor string
+		want func(n, l int64, allow bool) bool
+	}
+	specs := []spec{
+		{"combinator.SeqOf", func(n, l int64, _ bool) bool { return n == l }},
+		{"combinator.SeqTry", func(n, l int64, _ bool) bool { return n > 0 && n <= l }},
+		{"combinator.SeqFirstOrAll", func(n, l int64, _ bool) bool { return n == 1 || n == l }},
+		{"combinator.Many", func(n, _ int64, allow bool) bool { return allow || n > 0 }},
+	}
+	for _, sp := range specs {
+		fn := c.P.Func(sp.ctor)
+		if fn == nil {
+			c.R.Fail("coverage-lost", rule, sp.ctor, "-", "-", sp.ctor+" not found")
+			continue
+		}
+		// Many delegates to a private constructor taking the flag
+		target := fn
+		for _, call := range ssax.Calls(fn) {
+			if sc := call.Common().StaticCallee(); sc != nil && c.P.InLib(sc) && sc.Name() != "Seq" && len(sc.Blocks) > 0 && sc.Parent() == nil {
+				hasClosure := false
+				for _, b := range sc.Blocks {
+					for _, in := range b.Instrs {
+						if _, ok := in.(*ssa.MakeClosure); ok {
+							hasClosure = true
+						}
+					}
+				}
+				if hasClosure {
+					target = sc
+				}
+			}
+		}
+		// the bool closure
+		var lc *ssa.Function
+		var mc *ssa.MakeClosure
+		for _, b := range target.Blocks {
+			for _, in := range b.Instrs {
+				if m, ok := in.(*ssa.MakeClosure); ok {
+					f := m.Fn.(*ssa.Function)
+					if f.Signature.Results().Len() == 1 {
+						if bt, ok := f.Signature.Results().At(0).Type().Underlying().(*types.Basic); ok && bt.Kind() == types.Bool {
+							lc, mc = f, m
+						}
+					}
+				}
+			}
+		}
+		if lc == nil {
+			c.R.Undecided(rule, sp.ctor+" length predicate", sp.ctor, c.P.Pos(fn.Pos()), "no bool closure found in the constructor")
+			continue
+		}
+		// captured variables: an int (l = len(parsers)) and/or a bool (allowEmpty)
+		bad, undec := "", false
+		for l := int64(0); l <= 4 && bad == ""; l++ {
+			for _, allow := range []bool{false, true} {
+				for n := int64(0); n <= l+2; n++ {
+					capt := benv{}
+					for i, fv := range lc.FreeVars {
+						_ = mc.Bindings[i]
+						pt, ok := fv.Type().Underlying().(*types.Pointer)
+						if !ok {
+							continue
+						}
+						if bt, ok := pt.Elem().Underlying().(*types.Basic); ok {
+							switch {
+							case bt.Info()&types.IsInteger != 0:
+								capt[fv] = bval{known: true, i: l}
+							case bt.Kind() == types.Bool:
+								capt[fv] = bval{known: true, isB: true, b: allow}
+							}
+						}
+					}
+					got := foldFuncEnv(lc, []bval{{known: true, i: n}}, capt, 0)
+					if !got.known || !got.isB {
+						undec = true
+						continue
+					}
+					if got.b != sp.want(n, l, allow) {
+						bad = fmt.Sprintf("with %d parsers (allowEmpty=%v) a result of %d elements is %s, the documented rule says %s", l, allow, n, accepted(got.b), accepted(sp.want(n, l, allow)))
+					}
+				}
+			}
+		}
+		switch {
+		case bad != "":
+			c.R.Violation(rule, sp.ctor+" length rule", c.name(lc), c.P.Pos(lc.Pos()), sp.ctor+"'s length predicate differs from its documented rule: "+bad)
+		case undec:
+			c.R.Undecided(rule, sp.ctor+" length predicate not foldable", c.name(lc), c.P.Pos(lc.Pos()), "the length predicate is not a pure function of the length and the captured count/flag")
+		default:
+			c.R.Hold(rule, c.name(lc), "documented length rule (folded for l = 0..4)")
+		}
+	}
+}
+
+func accepted(b bool) string {
+	if b {
+		return "accepted"
+	}
+	return "rejected"
 }
